@@ -115,7 +115,7 @@ type record = {
   mutable parse : string list;
   mutable proj : (string * string) list;
   mutable wtext : int list option;
-  mutable import : string; mutable importerr : string; mutable floatconv : bool; mutable c10doc : string list option;
+  mutable import : string; mutable importerr : string; mutable floatconv : bool; mutable genprojeq : bool; mutable c10doc : string list option;
 }
 
 let mismatches = ref 0
@@ -220,6 +220,8 @@ let ends_with (s : string) (suf : string) : bool =
 let imp_kind_ok = ref 0
 let imp_unmapped = ref 0
 let imp_kind_outside = ref 0
+let gen_written = ref 0
+let hex_records = ref 0
 let imp_compared = ref 0
 let imp_ok = ref 0
 let imp_err = ref 0
@@ -254,6 +256,7 @@ let compare_import (r : record) report =
 
 let process (r : record) =
   incr cases;
+  if r.hex && r.domain then incr hex_records;
   compare_import r mismatch;
   if r.domain then begin
     incr compared;
@@ -313,7 +316,18 @@ let process (r : record) =
                let i = first_diff g wt in
                mismatch r "writer" (Printf.sprintf "texts differ at code point %d: go ...%S model ...%S" i
                                       (show_cps (take 60 (drop (i - 20) g))) (show_cps (take 60 (drop (i - 20) wt))))
-             end)
+             end);
+          (* a GENERATED document whose projection is, section by section, the projection compared above (so the
+             model's image f is the model of the generated document itself): the model's writer must reproduce the
+             text dbc.Write made of the generated document, which is the text of this record *)
+          if r.genprojeq && !fmiss = None then begin
+            incr gen_written;
+            if wt <> r.text then begin
+              let i = first_diff r.text wt in
+              mismatch r "writer-generated" (Printf.sprintf "dbc.Write(generated document) and the model's writer differ at code point %d: go ...%S model ...%S" i
+                                               (show_cps (take 60 (drop (i - 20) r.text))) (show_cps (take 60 (drop (i - 20) wt))))
+            end
+          end
         | _ -> ()
       end
   end
@@ -334,7 +348,7 @@ let endskel : (int * int) option ref = ref None
 let process_skel (toks : string list) =
   incr skel_cases;
   let dummy = { id = "skel" ^ string_of_int !skel_cases; stream = "skeleton"; hex = false; text = []; domain = false; digits = [];
-                toks = []; prs = []; fmt = []; parse = []; proj = []; wtext = None; import = ""; importerr = ""; floatconv = false; c10doc = None } in
+                toks = []; prs = []; fmt = []; parse = []; proj = []; wtext = None; import = ""; importerr = ""; floatconv = false; genprojeq = false; c10doc = None } in
   match toks with
   | gc :: n :: rest ->
     let n = int_of_string n in
@@ -355,7 +369,7 @@ let process_skel (toks : string list) =
 (* ---- static tables ---- *)
 let check_tables (kws : (int * int list) list) (puncts : (int * int) list) (newsyms : int list list) (access : (int * int list) list) =
   let dummy = { id = "tables"; stream = "tables"; hex = false; text = []; domain = false; digits = []; toks = []; prs = []; fmt = [];
-                parse = []; proj = []; wtext = None; import = ""; importerr = ""; floatconv = false; c10doc = None } in
+                parse = []; proj = []; wtext = None; import = ""; importerr = ""; floatconv = false; genprojeq = false; c10doc = None } in
   let m_kws = List.sort compare (List.map (fun (s, k) -> (int_of_n (keyword_index k), cps_of_str s)) keyword_table) in
   if List.sort compare kws <> m_kws then mismatch dummy "table-keywords" "keyword table differs";
   let m_p = List.mapi (fun i c -> (i, int_of_n c)) punct_chars in
@@ -389,7 +403,7 @@ let () =
         (match rest () with
          | [id; stream; hex] ->
            cur := Some { id; stream; hex = (hex = "1"); text = []; domain = false; digits = []; toks = []; prs = []; fmt = [];
-                         parse = []; proj = []; wtext = None; import = ""; importerr = ""; floatconv = false; c10doc = None }
+                         parse = []; proj = []; wtext = None; import = ""; importerr = ""; floatconv = false; genprojeq = false; c10doc = None }
          | _ -> failwith "bad CASE")
       | "TEXT", Some r -> r.text <- fst (take_cps (rest ()))
       | "DOMAIN", Some r -> r.domain <- (rest () = ["1"])
@@ -411,6 +425,9 @@ let () =
       | "WPANIC", Some _ -> ()
       | "IMPORT", Some r -> (match rest () with [c] -> r.import <- c | _ -> ())
       | "IMPORTERR", Some r -> r.importerr <- String.trim (String.sub line sp (String.length line - sp))
+      | "GENPROJEQ", Some r -> r.genprojeq <- (rest () = ["1"])
+      | "GENFMT", Some r ->
+        (match rest () with b :: v -> r.fmt <- (BZ.of_string b, fst (take_cps v)) :: r.fmt | _ -> failwith "bad GENFMT")
       | "C10FLOATCONV", Some r -> r.floatconv <- true
       | "C10DOC", Some r -> r.c10doc <- Some (rest ())
       | "END", Some r -> process r; cur := None
@@ -428,6 +445,8 @@ let () =
   (match !endskel with
    | None -> Printf.printf "SKELMARK missing\n"
    | Some (n, seen) -> Printf.printf "SKELMARK %s %d %d\n" (if n = seen && n = !skel_cases then "ok" else "mismatch") n !skel_cases);
+  Printf.printf "GENWRITTEN %d\n" !gen_written;
+  Printf.printf "HEXRECORDS %d\n" !hex_records;
   Printf.printf "IMPORTCMP %d OK %d ERR %d KINDOK %d UNMAPPED %d KINDOUTSIDE %d\n" !imp_compared !imp_ok !imp_err !imp_kind_ok !imp_unmapped !imp_kind_outside;
   Hashtbl.iter (fun w n -> Printf.printf "IMPORTERR %d %s\n" n w) imp_reasons;
   Printf.printf "CASES %d COMPARED %d MISMATCHES %d\n" !cases !compared !mismatches
